@@ -990,6 +990,17 @@ def r_zxy_guard(ctx):
                 obs.append(Ob("R-ZXY-GUARD", fn, "conversion only for %s < 2^z" % nm, ok, "grid test on %s found: %s" % (nm, ok), e.loc()))
             ok_shift = facts.get("shift_guarded", True)
             obs.append(Ob("R-ZXY-GUARD", fn, "the grid bound 1 << z is only evaluated for z < 64", ok_shift, "shift evaluated under its own zoom guard: %s" % ok_shift, e.loc()))
+            # argument selection: a parameter of the lookup that carries the name of one of the conversion's parameters is passed in that parameter's
+            # position (get_tile(x, y, z) → tile_id(z, x, y)); decided only where both sides use the same name, silent otherwise
+            callee = ctx.fn(e.d["fn"])
+            cnames = list(ctx.fa(callee).param_names) if callee is not None else []
+            for i, a in enumerate(e.d["args"][:len(cnames)]):
+                a = _strip_cast(unmut(a))
+                if a[0] == "v" and str(a[1]).startswith("param:"):
+                    nm = a[1][len("param:"):]
+                    if nm in cnames:
+                        obs.append(Ob("R-ZXY-GUARD", fn, "the lookup's `%s` is converted as the conversion's `%s`" % (nm, nm), cnames[i] == nm,
+                                      "parameter `%s` of the lookup is passed as `%s` of %s" % (nm, cnames[i], e.d["fn"].rpartition("::")[2]), e.loc(), only=("C07",)))
         # every shift by the zoom on the way (also inside helpers evaluated in place, also on the refusing paths) happens under z < 64
         shifts = {}
         for p in fa.paths:
@@ -1297,7 +1308,14 @@ def r_hilbert_call(ctx):
         return no_anchor("R-HILBERT-CALL", "coordinate/id conversions (callers of hilbert_2d::xy2h_discrete / h2xy_discrete)")
     for f in enc:
         fa = ctx.fa(f)
-        P = {n: V("param:" + n) for n in fa.param_names}
+        # the conversion's parameters by role, not by name: the zoom is the one u8, x and y are the other two in signature order
+        tys = [fa.var_types.get(fa.params.get(n)) for n in fa.param_names]
+        zs = [n for n, t in zip(fa.param_names, tys) if t == "u8"]
+        xy = [n for n, t in zip(fa.param_names, tys) if t != "u8"]
+        if len(fa.param_names) == 3 and len(zs) == 1 and len(xy) == 2:
+            P = {"z": V("param:" + zs[0]), "x": V("param:" + xy[0]), "y": V("param:" + xy[1])}
+        else:
+            P = {n: V("param:" + n) for n in fa.param_names}
         for p in fa.paths:
             hc = [e for e in p.events if e.kind == "call" and "xy2h_discrete" in e.d["fn"]]
             v = unmut(p.value)
@@ -1321,7 +1339,7 @@ def r_hilbert_call(ctx):
             obs.append(Ob("R-HILBERT-CALL", f["path"], "zoom 0 is answered without the curve (id 0)", False, "no path returns before the Hilbert call: zoom 0 would get id 1 + position", rel(f["loc"])))
     for f in dec:
         fa = ctx.fa(f)
-        tid = V("param:tile_id")
+        tid = V("param:" + fa.param_names[0]) if len(fa.param_names) == 1 else V("param:tile_id")
         if not any(p.exit == "ok" and not [e for e in p.events if e.kind == "call" and "h2xy_discrete" in e.d["fn"]] for p in fa.paths):
             obs.append(Ob("R-HILBERT-CALL", f["path"], "id 0 is answered without the curve (0/0/0)", False, "no success path returns before the Hilbert call", rel(f["loc"])))
         for p in fa.paths:
